@@ -139,7 +139,9 @@ FUNCTIONS['EXP'] = wrap_ufunc(np.exp)
 
 
 def xfact(number, fact=math.factorial, limit=0):
-    return np.nan if number < limit else int(fact(int(number or 0)))
+    if number < limit or number >= 171 + 130 * (limit < 0):
+        return np.nan  # Out of the domain or beyond the range of a double.
+    return int(fact(int(number or 0)))
 
 
 FUNCTIONS['FACT'] = wrap_ufunc(xfact)
